@@ -127,6 +127,10 @@ def block_checks(kind, x, facs, tol, stabilized=False):
 
 
 def bond_checks(x, left, right):
+    for nm, f in (("left", left), ("right", right)):
+        v = oracle.py_valid(f)
+        if v:
+            return f"{nm} factor is not a valid array: {v}"
     bl, br = left.indices[1], right.indices[0]
     if bl.dual == br.dual:
         return "bond index has the same direction on both factors"
@@ -172,9 +176,18 @@ def gen_cases(seed, chunk, n, tier):
             if rng.random() < 0.5:
                 ix = ix.conj()
             iy = ix.conj()
-            a = gen.rand_array(rng, sym, indices=[iy.conj(), iy] if rng.random() < 0.5 else [ix, ix.conj()],
-                               fermi=fermi, static=static, dtype=dtype, keep=rng.choice([0.6, 1.0]),
-                               charge=gen.py_combine(sym, []), pending=fermi and rng.random() < 0.4)
+            if rng.random() < 0.5:
+                a = gen.rand_array(rng, sym, indices=[iy.conj(), iy] if rng.random() < 0.5 else [ix, ix.conj()],
+                                   fermi=fermi, static=static, dtype=dtype, keep=rng.choice([0.6, 1.0]),
+                                   charge=gen.py_combine(sym, []), pending=fermi and rng.random() < 0.4)
+            else:
+                # arbitrary total charge: all charge sizes equal so that every block is square
+                d = rng.randint(1, 3)
+                i1 = sr.BlockIndex({c: d for c in gen.rand_index(rng, sym).chargemap}, dual=rng.random() < 0.5)
+                i2 = sr.BlockIndex({c: d for c in gen.rand_index(rng, sym).chargemap}, dual=rng.random() < 0.5)
+                a = gen.rand_array(rng, sym, indices=[i1, i2], fermi=fermi, static=static, dtype=dtype,
+                                   keep=rng.choice([0.6, 1.0]), pending=fermi and rng.random() < 0.4,
+                                   parity=0 if fermi else None)
             for s, b in list(a.blocks.items()):
                 b = np.array(b)
                 a.blocks[s] = (b + 8 * np.eye(b.shape[0])).astype(dtype)
@@ -252,8 +265,9 @@ def gen_cases(seed, chunk, n, tier):
             except Exception as e:  # noqa
                 orc = f"checking the factors raised {type(e).__name__}: {e}"
         case = {"kind": "prog", "env": {k: ser.enc_val(v) for k, v in env.items()}, "steps": steps}
+        trig = ["odd_matrix"] if (kind == "solve" and fermi and x is not None and x.parity) else []
         out.append(dict(case=case, impl=stream.strip_py(res), oracle=orc, meta=meta,
-                        nontrivial=bool(nontrivial), op=kind, triggers=[]))
+                        nontrivial=bool(nontrivial), op=kind, triggers=trig))
     return out
 
 
